@@ -2,7 +2,7 @@
 # tools/confirm_seeded.sh <property> <A|B>: confirms a sub-agent's mutation in its scratch worktree /tmp/mut/<property>:
 # demo passes on the clean tree; with the patch the tree builds and the unedited suite passes; with the patch the demo fails.
 set -u
-P=$1; M=$2; W=/tmp/mut/$P; O=/tmp/mut/out/$P/$M
+P=$1; M=$2; B=${MUTBASE:-/tmp/mut}; W=$B/$P; O=$B/out/$P/$M
 export GOFLAGS=-mod=mod GOPROXY=off GOSUMDB=off GOTOOLCHAIN=local
 cd $W || exit 2
 git checkout -q -- . ; git clean -fdq
@@ -10,13 +10,13 @@ PKG=$(python3 -c "import json;print(json.load(open('$O/meta.json')).get('demo_pa
 RACE=""; grep -q "race" $O/meta.json && [ "$P" = "C17" ] && RACE="-race"
 RUN=$(grep -o "^func Test[A-Za-z0-9_]*" $O/demo_test.go | sed 's/func //' | paste -sd'|')
 cp $O/demo_test.go $PKG/zz_seeded_demo_test.go
-go test -vet=off -count=1 $RACE -run "^($RUN)\$" ./$PKG/ > /tmp/mut/out/$P/$M/clean.log 2>&1; c1=$?
+go test -vet=off -count=1 $RACE -run "^($RUN)\$" ./$PKG/ > $O/clean.log 2>&1; c1=$?
 rm $PKG/zz_seeded_demo_test.go
 git apply $O/patch.diff || { echo "$P-$M patch does not apply"; git checkout -q -- .; exit 2; }
-go build ./... > /tmp/mut/out/$P/$M/build.log 2>&1; c2=$?
-go test -vet=off -count=1 ./... > /tmp/mut/out/$P/$M/suite.log 2>&1; c3=$?
+go build ./... > $O/build.log 2>&1; c2=$?
+go test -vet=off -count=1 ./... > $O/suite.log 2>&1; c3=$?
 cp $O/demo_test.go $PKG/zz_seeded_demo_test.go
-go test -vet=off -count=1 $RACE -run "^($RUN)\$" ./$PKG/ > /tmp/mut/out/$P/$M/mutated.log 2>&1; c4=$?
+go test -vet=off -count=1 $RACE -run "^($RUN)\$" ./$PKG/ > $O/mutated.log 2>&1; c4=$?
 rm $PKG/zz_seeded_demo_test.go
 git checkout -q -- . ; git clean -fdq
 echo "$P-$M demo_clean=$c1 build=$c2 suite=$c3 demo_mutated=$c4"
